@@ -38,6 +38,12 @@ def c10(run):
         cases.append(("bic", b if S.r.random() < 0.6 else S.mutate(b)))
     for _ in range(n * 30):
         cases.append((S.r.choice(["iban", "bic"]), S.malformed()[:60]))
+    # structurally valid BICs that no bank uses: digits and letters in every alphanumeric position
+    ccs = sorted({b[4:6] for b in bics})
+    for _ in range(n * 20):
+        an = DIGITS + UPPER
+        cases.append(("bic", "".join(S.r.choice(an) for _ in range(4)) + S.r.choice(ccs) +
+                      "".join(S.r.choice(an) for _ in range(S.r.choice([2, 5])))))
     from streams import near_whitespace
     for ch in near_whitespace():
         cases.append(("iban", "DE89" + ch + "370400440532013000"))
@@ -77,8 +83,10 @@ def c10(run):
             if a.startswith("ok"):
                 ops.append(["bic.parts", hx(c)])
                 f = unhx(real(["bic.parts", hx(c)]).split(" ")[5])
-                if real(["bic.new", hx(f), "F", "F"]) != a:
-                    run.violation("BIC.formatted", [base], f, "parses back to an equal BIC", "format round trip")
+                want = " ".join([c[0:4], c[4:6], c[6:8]] + ([c[8:11]] if len(c) == 11 else []))
+                if real(["bic.new", hx(f), "F", "F"]) != a or f != want:
+                    run.violation("BIC.formatted", [base], f, want + " (its parts separated by single spaces); "
+                                  "parses back to an equal BIC", "format round trip", op=["bic.parts", hx(c)])
         run.count(2, key=(kind, base, var) if var != base else None, tag="variant pair")
         if a != b:
             run.violation(f"{kind.upper()}(text)", [base, var], b, a,
@@ -412,6 +420,29 @@ def c05(run):
             run.violation("IBAN(text)", [unhx(f[1])], a, "an error class whose defect is present",
                           "error class vs Spec defect predicate", op=f)
     national_error_soundness(run, S)
+    # the same BBAN text under two countries in turn, national validation on: a value or a library error,
+    # and the verdict of the country's own rule
+    xops, xmeta = cross_country_ops(
+        S, lambda cc, b: [["iban.new", hx(cc + iban_check_digits(cc, b) + b), "F", "T"]])
+    xreals, _ = run.correspond("one BBAN text under two countries", xops)
+    for f, m, a in zip(xops, xmeta, xreals):
+        if m is None:
+            continue
+        if a.startswith("crash"):
+            run.violation(f[0], [unhx(f[1])] + f[2:], a, "a library exception or a value",
+                          "non-library exception escaped", op=f, expected_line="err")
+            continue
+        want = national_expectation(S, m[2], m[0], m[1])
+        if want is None:
+            continue
+        if want and not a.startswith("ok "):
+            run.violation("IBAN(text, validate_bban=True)", [unhx(f[1])], a, "accepted",
+                          "the error names a defect that is not present (the country's own national rule "
+                          "accepts this BBAN)", op=f, expected_line="ok")
+        if not want and a not in ("err InvalidBBANChecksum", "err InvalidAccountCode"):
+            run.violation("IBAN(text, validate_bban=True)", [unhx(f[1])], a, "InvalidBBANChecksum",
+                          "the country's own national rule rejects this BBAN", op=f,
+                          expected_line="err InvalidBBANChecksum")
     # BIC
     bics = sorted({e["bic"] for e in S.banks if e["bic"]})
     btexts = []
@@ -444,6 +475,56 @@ def c05(run):
                           "error class vs Spec defect predicate", op=f)
 
 
+
+def cross_country_ops(S, make, per_pair=1, order=(0, 1, 0, 1)):
+    """Operation sequences on one BBAN text under two countries (A, B, A, B): `make(cc, bban)` gives
+    the operations for one country.  Returns (ops, meta) with meta = (cc, bban, entries) per operation;
+    the registry lines needed by the model are included (meta None)."""
+    from realops import registry_lines
+    trip = S.shared_bbans(per_pair)
+    pairs = [(cc, b) for A, B, b in trip for cc in (A, B)]
+    entries = S.entries_for(pairs)
+    ops = registry_lines(entries)
+    meta = [None] * len(ops)
+    for A, B, b in trip:
+        for k in order:
+            cc = (A, B)[k]
+            for f in make(cc, b):
+                ops.append(f)
+                meta.append((cc, b, entries))
+    return ops, meta
+
+
+def expect_bank_line(S, entries, cc, b):
+    """What `bban.bank` / `bban.bic` must show for a BBAN, read off the registry entries."""
+    key = S.lookup_key(cc, b)
+    listed = [e for e in entries if e["country_code"] == cc and e["bank_code"] == key] if key else []
+    if not listed:
+        return "ok None | ok None"
+    e = listed[0]
+    _, chosen = expected_lookup(entries, cc, key)
+    return "ok " + " ".join([hx(e["bank_code"]), "None" if e["bic"] is None else hx(e["bic"]),
+                             hx(e["name"]), hx(e["short_name"])]) + " | ok " + \
+        ("None" if chosen is None else hx(chosen))
+
+
+def national_expectation(S, entries, cc, b):
+    """True / False / None (no reference): does the published national rule accept this BBAN?"""
+    import natref
+    from realops import checksum
+    if cc == "DE":
+        key = S.lookup_key(cc, b)
+        listed = [e for e in entries if e["country_code"] == cc and e["bank_code"] == key]
+        algo = listed[0].get("checksum_algo") if listed else None
+        if algo is None or ("DE:" + algo) not in checksum.algorithms:
+            return True
+        w = natref.de(algo, b[8:18])
+        return w if isinstance(w, bool) else None
+    if cc in natref.NATIONAL:
+        return natref.NATIONAL[cc](b)
+    return True
+
+
 # --------------------------------------------------------------------------- C11
 @prop("C11",
       rule="valid IBANs of all countries (several per country, with registry banks) and registry BICs: all "
@@ -463,16 +544,17 @@ def c11(run):
         ops.append(["iban.from_bban", hx(i[:2]), hx(i[4:])])
     reals, _ = run.correspond("iban accessors", ops)
     from realops import COMPONENT_ORDER
-    for k in range(0, len(ops), 2):
-        i = unhx(ops[k][1])
-        a = reals[k].split(" ")
+
+    def check_parts(f, real_line):
+        i = unhx(f[1])
+        a = real_line.split(" ")
         if a[1] == "ACCESSOR-MISMATCH":
-            run.violation("iban.<component>", [i], reals[k], "IBAN accessor == BBAN accessor", "proxy check",
-                          op=ops[k])
-            continue
+            run.violation("iban.<component>", [i], real_line, "IBAN accessor == BBAN accessor", "proxy check",
+                          op=f)
+            return
         cc, dd, bban = unhx(a[1]), unhx(a[2]), unhx(a[3])
         if cc + dd + bban != i:
-            run.violation("country_code+checksum_digits+bban", [i], cc + dd + bban, i, "concatenation", op=ops[k])
+            run.violation("country_code+checksum_digits+bban", [i], cc + dd + bban, i, "concatenation", op=f)
         pos = S.table[cc].get("positions", {})
         comps = a[5:]
         used = []
@@ -485,15 +567,36 @@ def c11(run):
             else:
                 want = "ok -"
             if got != want:
-                run.violation("iban.bban." + name, [i], got, want, "accessor vs published position", op=ops[k])
+                run.violation("iban.bban." + name, [i], got, want, "accessor vs published position", op=f)
         used.sort()
         for (s1, e1, n1), (s2, e2, n2) in zip(used, used[1:]):
             if e1 > s2:
                 run.violation("positions", [cc, n1, n2], f"{s1}:{e1} / {s2}:{e2}", "disjoint fields",
                               "overlap check", kind="config")
+
+    for k in range(0, len(ops), 2):
+        i = unhx(ops[k][1])
+        check_parts(ops[k], reals[k])
         if reals[k + 1] != "ok " + hx(i):
             run.violation("IBAN.from_bban(country, bban)", [i], reals[k + 1], "ok " + hx(i), "reassembly",
                           op=ops[k + 1], expected_line="ok " + hx(i))
+    # the same BBAN text under two countries in turn: every accessor still follows the country's own
+    # published positions
+    xops, xmeta = cross_country_ops(
+        S, lambda cc, b: [["iban.parts", hx(cc + iban_check_digits(cc, b) + b)],
+                          ["iban.from_bban", hx(cc), hx(b)]])
+    xreals, _ = run.correspond("one BBAN text under two countries", xops)
+    for f, m, a in zip(xops, xmeta, xreals):
+        if m is None:
+            continue
+        if f[0] == "iban.parts":
+            check_parts(f, a)
+        else:
+            want = "ok " + hx(m[0] + iban_check_digits(m[0], m[1]) + m[1])
+            if a != want:
+                run.violation("IBAN.from_bban(country, bban)", [m[0], m[1]], a, want,
+                              "reassembly after the same BBAN text was used under another country", op=f,
+                              expected_line=want)
     via_bban_check(run, S, ibans[:: max(1, len(ibans) // run.scale(400, 4000))])
     bics = sorted({e["bic"] for e in S.banks if e["bic"]})
     bops = [["bic.parts", hx(b)] for b in S.r.sample(bics, run.scale(1500, len(bics)))]
@@ -696,6 +799,47 @@ def c06(run):
             for cc in order + order[::-1]:
                 ops.append(["bban.national", hx(cc), hx(b)])
                 meta.append((cc, b, natref.NATIONAL[cc](b) if cc in natref.NATIONAL else True) if cc != "DE" else None)
+    # one BBAN text under every pair of countries that admit it (A, B, A, B)
+    xops, xmeta = cross_country_ops(S, lambda cc, b: [["bban.national", hx(cc), hx(b)]])
+    for f, m in zip(xops, xmeta):
+        ops.append(f)
+        if m is None:
+            meta.append(None)
+        else:
+            w = national_expectation(S, m[2], m[0], m[1])
+            meta.append(None if w is None or m[0] == "DE" else (m[0], m[1], w))
+    ops.append(["reg.reset"])
+    meta.append(None)
+    # the same digits as the *declared fields* of different countries (the fields an algorithm reads,
+    # joined, spell the same string although the BBANs differ): the verdict is still the country's own
+    from realops import checksum as _cs2
+    width_groups = {}
+    for cc in sorted(natref.NATIONAL):
+        if cc not in natref.CHECK_FIELD or cc in ("CZ", "SK"):
+            continue
+        spec = S.table[cc]
+        cl = S.classes(cc)
+        fields = [spec["positions"].get(c.value, [0, 0]) for c in type(_cs2.algorithms[cc + ":default"]).accepts]
+        if all(cl[p] == "n" for s_, e_ in fields for p in range(s_, e_)):
+            width_groups.setdefault(sum(e_ - s_ for s_, e_ in fields), []).append((cc, fields))
+    for w, grp in sorted(width_groups.items()):
+        if len(grp) < 2:
+            continue
+        for _ in range(run.scale(12, 300)):
+            digits = "".join(r.choice(DIGITS) for _ in range(w))
+            seq = []
+            for cc, fields in grp:
+                b = list(S.bban(cc).upper())
+                pos = 0
+                for s_, e_ in fields:
+                    b[s_:e_] = list(digits[pos:pos + e_ - s_])
+                    pos += e_ - s_
+                b = "".join(b)
+                seq.append((cc, natref.make_valid(cc, b, r) or b))
+            r.shuffle(seq)
+            for cc, b in seq + seq[::-1]:
+                ops.append(["bban.national", hx(cc), hx(b)])
+                meta.append((cc, b, natref.NATIONAL[cc](b)))
     # several calls on one object
     for cc in sorted(natref.NATIONAL):
         for _ in range(run.scale(3, 60)):
@@ -954,6 +1098,17 @@ def c12(run):
                                ["bic.from_bank_code", hx(cc), hx(code)], ["bban.bank", hx(cc), hx(b)]):
                         ops.append(op)
                         meta.append(("bank", firsts[code][0]) if op[0] == "bban.bank" else (es, cc, code))
+    # the same BBAN text under two countries in turn: bank / bic are those of the country's own fields
+    xops, xmeta = cross_country_ops(S, lambda cc, b: [["bban.bank", hx(cc), hx(b)]], per_pair=2)
+    xreals, _ = run.correspond("one BBAN text under two countries", xops)
+    for f, m, a in zip(xops, xmeta, xreals):
+        if m is None:
+            continue
+        want = expect_bank_line(S, m[2], m[0], m[1])
+        if a != want:
+            run.violation("bban.bank / bban.bic", [m[0], m[1]], a, want,
+                          "lookup of the BBAN's own bank-identifying fields in the registry", op=f,
+                          expected_line=want)
     reals, _ = run.correspond("bundled registry", ops)
     for f, m, a in zip(ops, meta, reals):
         if isinstance(m, tuple) and m[0] == "bank":
@@ -1831,6 +1986,55 @@ def c15(run):
                               want, "same call as the first call of a fresh process", kind="history",
                               history=hist[lo:pos] + [op], op=op, expected_line=want)
                 break
+    # revisits: a call, another call routed to the same algorithm object, the first call again
+    from realops import checksum as _cs
+    tri = []
+    for key in sorted(_cs.algorithms):
+        for _ in range(run.scale(150, 3000) if key.startswith("DE:") else run.scale(20, 300)):
+            if key.startswith("DE:"):
+                x, y = ("".join(r.choice(DIGITS) for _ in range(10)) for _ in range(2))
+                if r.random() < 0.5:
+                    x = x[:8] + x[8] * 2
+                tri.append([["algo.validate", hx(key), "-", hx(v)] for v in (x, y, x)])
+            else:
+                cc = key[:2]
+                if cc not in S.table:
+                    continue
+                x, y = S.bban(cc).upper(), S.bban(cc).upper()
+                tri.append([["bban.national", hx(cc), hx(v)] for v in (x, y, x)])
+    # one BBAN text under two countries (A, B, A, B): accessors, bank lookup, national check
+    xops, xmeta = cross_country_ops(
+        S, lambda cc, b: [["iban.parts", hx(cc + iban_check_digits(cc, b) + b)], ["bban.bank", hx(cc), hx(b)],
+                          ["bban.national", hx(cc), hx(b)]])
+    xseq = [f for f, m in zip(xops, xmeta) if m is not None]
+    flat = [op for t in tri for op in t]
+    outs = sched.in_child(lambda: ([real(op) for op in flat], [real(op) for op in xseq]))
+    if outs is None:
+        run.notes.append("revisit child died")
+    else:
+        o1, o2 = outs
+        for k, t in enumerate(tri):
+            a, b_, c = o1[3 * k: 3 * k + 3]
+            run.count(3, key=("revisit", k), tag="revisit " + t[0][0])
+            if a != c:
+                want = first_call(t[0])
+                run.violation("call after a history", [readable_op(x) for x in t], c, want,
+                              "the same call gave another outcome two calls earlier in the same process",
+                              kind="history", history=t, op=t[0], expected_line=want)
+        for k in range(0, len(xseq) - 11, 12):      # 4 visits x 3 kinds per (A, B, text)
+            grp_ops, grp_out = xseq[k:k + 12], o2[k:k + 12]
+            for j in range(6):
+                run.count(1, key=("xc", k, j), tag="two countries " + grp_ops[j][0])
+                want = first_call(grp_ops[j]) if j >= 3 else grp_out[j]
+                for pos in ([j, j + 6] if j >= 3 else [j + 6]):
+                    if grp_out[pos] != want:
+                        want = first_call(grp_ops[j])
+                        run.violation("call after a history", [readable_op(x) for x in grp_ops[:pos + 1]],
+                                      grp_out[pos], want,
+                                      "same call as the first call of a fresh process (one BBAN text used under "
+                                      "two countries)", kind="history", history=grp_ops[:pos + 1],
+                                      op=grp_ops[j], expected_line=want)
+                        break
     run.samples.append({"history": [readable_op(o) for o in pool[:6]]})
 
 
